@@ -7,7 +7,7 @@ from __future__ import annotations
 
 from kit.engine import Cond
 from kit import oracle as O
-from kit.state import mk, raw, call, classes, is_stream, is_mutable, same
+from kit.state import mk, raw, call, classes, is_stream, is_mutable, same, get_attr, set_attr
 from harness.common import CLS, _obj, _unchanged, _operand, _operand_unchanged
 
 ASSUMPTIONS = [
@@ -347,7 +347,7 @@ def h_mut_pos(op, n, m):
             exp_pos = 0
         elif op in ('insert', 'overwrite'):
             p = K.opt_int('p')
-            r = call(lambda: getattr(s, op)(other, p))
+            r = call(lambda: get_attr(s, op)(other, p))
             if m == 0:
                 return K.check(r.ok and _unchanged(K, s, x, pos), 'empty operand: no-op, pos unchanged', exc=r.excname, pos=s._pos)
             q = pos if p is None else (p + n if p < 0 else p)
